@@ -1,3 +1,187 @@
 """C04 Calendar-unit arithmetic follows the wall clock with end-of-month clamping."""
+import datetime as _dt
+
+import pendulum
+from pendulum.duration import Duration
+
+from contracts import duration as _dur
+from contracts.date import date_add_spec
+from contracts.dt import _UNITS, _add_base, add_spec, duration_components, fresh_pdt, zone_cases2
+from contracts.helpers import clamp_day, delta_us, shifted_ym
+from pyvc import spec, stdlib, sym, zones
+from pyvc.contract import contract
+from pyvc.spec import DUS, M
+from pyvc.sym import And, If, Implies, Not, Or, eq, ge, gt, le, lt, ne
+
 ID = "C04"
-CONTRACTS = ["pendulum.helpers.add_duration"]
+
+
+def c04_calendar(dt, years, months, weeks, days, hours, minutes, seconds, microseconds):
+    a = dt.add(years=years, months=months, weeks=weeks, days=days, hours=hours, minutes=minutes, seconds=seconds, microseconds=microseconds)
+    b = dt.subtract(years=-years, months=-months, weeks=-weeks, days=-days, hours=-hours, minutes=-minutes, seconds=-seconds,
+                    microseconds=-microseconds)
+    return a, b
+
+
+def c04_minus_duration(dt, d):
+    return (dt - d, dt + (-d),
+            dt.subtract(years=d.years, months=d.months, weeks=d.weeks, days=d.remaining_days, hours=d.hours, minutes=d.minutes,
+                        seconds=d.remaining_seconds, microseconds=d.microseconds))
+
+
+def c04_date(dd, years, months, weeks, days, d):
+    return dd.add(years=years, months=months, weeks=weeks, days=days), dd.subtract(years=-years, months=-months, weeks=-weeks, days=-days), dd - d, dd + (-d)
+
+
+def _same(x, y):
+    return And(eq(spec.wall_us(x), spec.wall_us(y)), eq(x.fold, y.fold), zones.same_zone(x.tzinfo, y.tzinfo), x.cls is y.cls)
+
+
+def _cal_case(mk):
+    class case:
+        def args(F):
+            tz, zc = mk(F)
+            o, inv = fresh_pdt(F, tz, "dt")
+            a = dict(dt=o)
+            for n in _UNITS:
+                a[n] = F.int(n)
+            return a, [zc, inv]
+
+        def requires(dt, **u):
+            return [("representable", add_spec(dt, u)[2]),
+                    ("calendar_units_present", Or(ne(u["years"], 0), ne(u["months"], 0), ne(u["weeks"], 0), ne(u["days"], 0)))]
+
+        def result(F, **a):
+            raise NotImplementedError
+
+        def ensures(result, dt, **u):
+            a, b = result
+            # the statement, spelled out: shift years/months, clamp the day, then weeks/days/time on the calendar
+            ty, tmo = shifted_ym(dt.year, dt.month, u["years"], u["months"])
+            base = spec.wall_us_f(ty, tmo, clamp_day(ty, tmo, dt.day), dt.hour, dt.minute, dt.second, dt.microsecond)
+            w = sym.add(base, delta_us(u["weeks"], u["days"], u["hours"], u["minutes"], u["seconds"], u["microseconds"]))
+            out = [("negative_add_is_subtract", _same(a, b)), ("timezone_kept", zones.same_zone(a.tzinfo, dt.tzinfo))]
+            if dt.tzinfo is None:
+                out.append(("wall_clock_value", eq(spec.wall_us(a), w)))
+            else:
+                out.append(("wall_clock_value_normalised_by_construction_rules", eq(spec.wall_us(a), zones.normalised(dt.tzinfo, w, 1)[0])))
+                out.append(("valid_local_time", zones.is_rendering(a)))
+            return out
+
+    return case
+
+
+def _minus_case(mk):
+    class case:
+        def args(F):
+            tz, zc = mk(F)
+            o, inv = fresh_pdt(F, tz, "dt")
+            d, dinv = _dur.fresh_duration(F, Duration, "d")
+            return dict(dt=o, d=d), [zc, inv, dinv]
+
+        def requires(dt, d):
+            u = {k: sym.neg(v) for k, v in duration_components(d).items()}
+            return [("representable", And(add_spec(dt, u)[2], stdlib.td_in_range(sym.neg(d.us))))]
+
+        def result(F, **a):
+            raise NotImplementedError
+
+        def ensures(result, dt, d):
+            x, y, z_ = result
+            return [("dt_minus_d_equals_dt_plus_neg_d", _same(x, y)), ("dt_minus_d_equals_subtract_components", _same(x, z_))]
+
+    return case
+
+
+@contract("props.C04.c04_calendar", props=["C04"])
+class c04_cal_lemma:
+    cases = {n: _cal_case(mk) for n, mk in zone_cases2().items()}
+
+
+@contract("props.C04.c04_minus_duration", props=["C04"])
+class c04_minus_lemma:
+    cases = {n: _minus_case(mk) for n, mk in zone_cases2().items()}
+
+
+@contract("props.C04.c04_date", props=["C04"])
+class c04_date_lemma:
+    def args(F):
+        o, c = stdlib.fresh_date(F, pendulum.Date, "dd")
+        d, dinv = _dur.fresh_duration(F, Duration, "d")
+        return dict(dd=o, years=F.int("years"), months=F.int("months"), weeks=F.int("weeks"), days=F.int("days"), d=d), [c, dinv]
+
+    def requires(dd, years, months, weeks, days, d):
+        u = dict(years=years, months=months, weeks=weeks, days=days)
+        du = dict(years=sym.neg(d._years), months=sym.neg(d._months), weeks=sym.neg(d._weeks), days=sym.neg(d._remaining_days))
+        return [("representable", And(date_add_spec(dd, u)[1], date_add_spec(dd, du)[1], stdlib.td_in_range(sym.neg(d.us))))]
+
+    def result(F, **a):
+        raise NotImplementedError
+
+    def ensures(result, dd, years, months, weeks, days, d):
+        a, b, m1, m2 = result
+        ty, tmo = shifted_ym(dd.year, dd.month, years, months)
+        o = sym.add(spec.ordinal(ty, tmo, clamp_day(ty, tmo, dd.day)), sym.add(sym.mul(weeks, 7), days))
+        return [("date_shift_clamp_then_days", eq(spec.date_ord(a), o)), ("negative_add_is_subtract", eq(spec.date_ord(a), spec.date_ord(b))),
+                ("date_minus_d_equals_date_plus_neg_d", eq(spec.date_ord(m1), spec.date_ord(m2)))]
+
+
+class _canary_clamp:
+    """falsified: claims the day is clamped to the *source* month's length"""
+    from contracts.helpers import _ad_args, _add_duration_base as _b
+
+    args = _ad_args("date")
+    requires = _b.requires
+    raises = _b.raises
+    cuts = _b.cuts
+
+    def result(F, **a):
+        raise NotImplementedError
+
+    def ensures(result, dt, **u):
+        ty, tmo = shifted_ym(dt.year, dt.month, u["years"], u["months"])
+        wrong = sym.minv(dt.day, spec.dim(dt.year, dt.month))
+        return [("clamped_to_source_month", eq(spec.date_ord(result), sym.add(spec.ordinal(ty, tmo, wrong), sym.add(sym.mul(u["weeks"], 7), u["days"]))))]
+
+
+CONTRACTS = [
+    "pendulum.helpers.add_duration",
+    "pendulum.datetime.DateTime.add",
+    "pendulum.datetime.DateTime.subtract",
+    "pendulum.datetime.DateTime._add_timedelta_",
+    "pendulum.datetime.DateTime._subtract_timedelta",
+    "pendulum.datetime.DateTime.__add__",
+    "pendulum.datetime.DateTime.__sub__",
+    "pendulum.duration.Duration.__neg__",
+    "pendulum.date.Date.add",
+    "pendulum.date.Date.subtract",
+    "pendulum.date.Date._add_timedelta",
+    "pendulum.date.Date._subtract_timedelta",
+    "pendulum.date.Date.__add__",
+    "pendulum.date.Date.__sub__",
+    "props.C04.c04_calendar",
+    "props.C04.c04_minus_duration",
+    "props.C04.c04_date",
+]
+CANARIES = [("clamp_to_source_month", "pendulum.helpers.add_duration", _canary_clamp)]
+ASSUMPTIONS = [
+    "zoneinfo transition model (k=2), assumed and swept under C02; CPython datetime/date/timedelta contracts",
+    "A-TYPES: amounts are ints; Duration operands are Durations built from ints (their recorded constructor arguments are ints)",
+    "requires: results representable (years 1..9999) - the property's quantifier",
+    "Interval operands of + (the components of precise_diff) are covered under C06",
+]
+EXPLANATION = "add_duration, DateTime/Date add/subtract and the Duration operators are proved against the relational statement of C04 (month shift, clamp, elapsed part, construction-rule normalisation); the equalities dt - d == dt + (-d) == dt.subtract(components) are harness lemmas."
+
+
+def bounded(ctx):
+    from bounded import c04
+
+    c04.run(ctx)
+
+
+MANIFEST_ENTRY = {
+    "text": "helpers.add_duration, DateTime.add/subtract (calendar branch), the +/- operators with a Duration on DateTime and Date, Date.add/subtract and Duration.__neg__ are proved for all dates, zones (two symbolic transitions) and integer amounts to compute: month shift, clamp to the target month, then days/time on the wall clock, normalised by the construction rules; negative add == subtract and dt - d == dt + (-d) == dt.subtract(components of d) are proved as lemmas over those contracts.",
+    "note": "Trusted: pyvc + spec/zones, z3/cvc5. Assumed: CPython datetime/date/timedelta/zoneinfo contracts (model swept under C02). Bounded: comparison with an independent implementation (dateutil.relativedelta) and end-to-end checks around real transitions. One genuine defect found and fixed (cf5183a).",
+    "technique": "contract-based deductive verification (own VC generator over the real Python AST, cut points, z3/cvc5) over a symbolic zone model; harness lemmas; bounded differential against dateutil.relativedelta",
+    "design_ref": "DESIGN.md section 8 (C04)",
+}
